@@ -51,6 +51,13 @@ func runC16(c *core.Ctx) {
 			cs.Fail("header/reencode", core.W{"word": fmt.Sprintf("%08x", w), "reencoded": mon.Hex(out, 8), "error": errStr(merr)})
 			return false
 		}
+		// the decoded value is a function of the four octets alone: a receiver that already holds
+		// another header (all fields different) must end up with the same value
+		used := rtcp.Header{Padding: !h.Padding, Count: ^h.Count & 0x1F, Type: ^h.Type, Length: ^h.Length}
+		if err := used.Unmarshal(b[:]); err != nil || used != h {
+			cs.Fail("header/depends-on-receiver", core.W{"word": fmt.Sprintf("%08x", w), "fresh": vdump(h), "into_used_receiver": vdump(used)})
+			return false
+		}
 		return true
 	}
 	if c.Thorough() {
@@ -139,6 +146,11 @@ func runC16(c *core.Ctx) {
 			b := []byte{byte(w >> 8), byte(w)}
 			if err := rl.Unmarshal(b); err != nil || rl.PacketStatusSymbol != w>>13&3 || rl.RunLength != w&0x1FFF || rl.Type != 0 {
 				cs.Fail("runlength/decode", core.W{"word": fmt.Sprintf("%04x", w), "decoded": vdump(rl), "error": errStr(err)})
+				return
+			}
+			usedRL := rtcp.RunLengthChunk{Type: 1, PacketStatusSymbol: ^rl.PacketStatusSymbol, RunLength: ^rl.RunLength}
+			if err := usedRL.Unmarshal(b); err != nil || usedRL.Type != rl.Type || usedRL.PacketStatusSymbol != rl.PacketStatusSymbol || usedRL.RunLength != rl.RunLength {
+				cs.Fail("runlength/depends-on-receiver", core.W{"word": fmt.Sprintf("%04x", w), "fresh": vdump(rl), "into_used_receiver": vdump(usedRL)})
 				return
 			}
 			out, err := rl.Marshal()
@@ -247,6 +259,11 @@ func runC16(c *core.Ctx) {
 				cs.Fail("delta/large-decode", core.W{"word": fmt.Sprintf("%04x", w), "decoded": vdump(d)})
 				return
 			}
+			usedD := rtcp.RecvDelta{Type: 1, Delta: ^d.Delta}
+			if err := usedD.Unmarshal([]byte{byte(w >> 8), byte(w)}); err != nil || usedD != d {
+				cs.Fail("delta/depends-on-receiver", core.W{"word": fmt.Sprintf("%04x", w), "fresh": vdump(d), "into_used_receiver": vdump(usedD)})
+				return
+			}
 			out, err := d.Marshal()
 			if err != nil || len(out) != 2 || out[0] != byte(w>>8) || out[1] != byte(w) {
 				cs.Fail("delta/large-reencode", core.W{"word": fmt.Sprintf("%04x", w), "reencoded": mon.Hex(out, 4), "error": errStr(err)})
@@ -286,8 +303,8 @@ func runC16(c *core.Ctx) {
 			}
 			// octets -> value -> octets
 			wire[5], wire[6], wire[7] = byte(tl>>16), byte(tl>>8), byte(tl)
-			var d2 rtcp.ReceptionReport
-			if d2.Unmarshal(wire) != nil || d2.TotalLost != tl {
+			d2 := rtcp.ReceptionReport{SSRC: ^base.SSRC, FractionLost: ^base.FractionLost, TotalLost: ^tl, LastSequenceNumber: 7, Jitter: 7, LastSenderReport: 7, Delay: 7} // a used receiver
+			if d2.Unmarshal(wire) != nil || d2.TotalLost != tl || d2 != v {
 				cs.Fail("total-lost/decode", core.W{"octets": mon.Hex(wire, 24), "decoded": vdump(d2)})
 				return
 			}
